@@ -624,7 +624,8 @@ func TestC17(t *testing.T) {
 			return fmt.Sprintf("%04d-%02d-%02d%s%02d:%02d:%02d%s%s", y, mo, d, sep, h, mi, s, frac, tz)
 		}
 		a, b2 := gen("a"), gen("b")
-		zone := rapid.SampledFrom([]string{"", "UTC", "+05:30", "-12:00", "America/New_York"}).Draw(rt, "zone")
+		// (Chicago / Shanghai / Havana all abbreviate to CST, Kolkata / Dublin / Jerusalem to IST: an abbreviation is no zone)
+		zone := rapid.SampledFrom([]string{"", "UTC", "+05:30", "-12:00", "America/New_York", "America/Chicago", "Asia/Shanghai", "Asia/Kolkata", "Europe/Dublin", "Asia/Jerusalem", "+08:00"}).Draw(rt, "zone")
 		if rapid.IntRange(0, 9).Draw(rt, "edge") < 4 {
 			// values within two seconds of a change of a named zone's offset, written as local time of that zone or
 			// as an instant with some offset, under that zone: uniformly drawn instants never come near one
